@@ -143,13 +143,15 @@ impl World {
     /// The Byzantine validators add timeout votes (with the given lie) to every view in which a correct
     /// validator timed out; quorums are assembled into timeout certificates and announced.
     /// `lie`: 0 = no high vote / no high certificate, 1 = a fabricated high vote for a conflicting payload at the
-    /// highest voted block, 2 = echo the highest correct vote, 3 = fabricated high vote for the next block.
+    /// highest voted block, 2 = echo the highest correct vote, 3 = fabricated high vote for the next block,
+    /// 4 = echo the *stalest* high vote reported by a correct validator (helps a minority vote towards the sub-quorum).
     pub fn complete_timeouts(&mut self, lie: u8) -> Vec<usize> {
         let byz = self.byz_ids();
         let votes = self.timeout_votes();
         let qcs = self.known_commit_qcs();
         for (view, signers) in &votes {
             let top_vote = signers.values().filter_map(|v| v.msg.high_vote.clone()).max_by_key(|v| (v.proposal.number, v.view.number));
+            let stalest_vote = signers.values().filter_map(|v| v.msg.high_vote.clone()).min_by_key(|v| (v.proposal.number, v.view.number));
             for b in &byz {
                 if signers.contains_key(b) {
                     continue;
@@ -158,6 +160,7 @@ impl World {
                     (0, _) | (_, None) => None,
                     (1, Some(v)) => Some(v2::ReplicaCommit { view: v.view, proposal: v2::BlockHeader { number: v.proposal.number, payload: Payload(vec![0xEE, *b as u8]).hash() } }),
                     (2, Some(v)) => Some(v.clone()),
+                    (4, Some(_)) => stalest_vote.clone(),
                     (_, Some(v)) => Some(v2::ReplicaCommit { view: v.view, proposal: v2::BlockHeader { number: v.proposal.number.next(), payload: Payload(vec![0xEF]).hash() } }),
                 };
                 let high_qc = match lie {
